@@ -1,7 +1,8 @@
 """U-DIAGORD: the tail of typer::toplevel::define_trait_impl that reports unimplemented trait methods, as a fragment.
 
-Two loop shapes are recognised on each run (anything else: UNDECIDED):
+Three loop shapes are recognised on each run (anything else: UNDECIDED):
   A  `for m in <HashSet>.iter()`            -- order = the hash set's iteration order (NOT a function of its contents)
+  C  `for m in <HashSet>.difference(&implemented_methods)` -- the same walk, skipping the implemented ones
   B  `for m in trait_def.methods.keys()`    -- order = the trait's declaration order (IndexMap insertion order)
 The postcondition is the same: the diagnostics pushed are, in ORDER, one per declared method that is not implemented, where ORDER
 must be a function of the program (B: declaration order; A: could only be some canonical order of the set's contents)."""
@@ -14,6 +15,7 @@ T = "crates/compiler/src/typer/toplevel.rs"
 END = "env.current_mut().trait_env.trait_impls.insert("
 RE_A = re.compile(r"for\s+(\w+)\s+in\s+(\w+)\.iter\(\)\s*\{")
 RE_B = re.compile(r"for\s+(\w+)\s+in\s+trait_def\.methods\.keys\(\)\s*\{")
+RE_C = re.compile(r"for\s+(\w+)\s+in\s+(\w+)\.difference\(&implemented_methods\)\s*\{")
 FMT = (re.compile(r'format!\(\s*"[^"]*missing method[^"]*",\s*trait_name_str,\s*for_ty,\s*(\w+)\s*,?\s*\)', re.S), r"fmt_missing(&trait_name_str, &for_ty, \1)", 1)
 LOOP = "let __ord = {src}; let mut __fk0: usize = 0; while __fk0 < __ord.len() {{ let {x} = &__ord[__fk0]; __fk0 += 1;"
 
@@ -26,10 +28,11 @@ def fragment():
         raise AnchorLost("define_trait_impl: end anchor lost")
     head = body[:body.index(END)]
     # the LAST loop before the impl is inserted is the one that reports missing methods
-    cands = [(m.start(), "A", m) for m in RE_A.finditer(head)] + [(m.start(), "B", m) for m in RE_B.finditer(head)]
+    cands = ([(m.start(), "A", m) for m in RE_A.finditer(head)] + [(m.start(), "B", m) for m in RE_B.finditer(head)]
+             + [(m.start(), "C", m) for m in RE_C.finditer(head)])
     cands = [c for c in cands if "missing method" in head[c[0]:]]
     if not cands:
-        raise AnchorLost("define_trait_impl: the loop reporting missing methods has neither of the two supported shapes")
+        raise AnchorLost("define_trait_impl: the loop reporting missing methods has none of the three supported shapes")
     _pos, shape, m = max(cands)
     return shape, m
 
@@ -37,12 +40,15 @@ def fragment():
 def item():
     shape, m = fragment()
     x = m.group(1)
-    if shape == "A":
+    if shape in ("A", "C"):
         setv = m.group(2)
         sig = (f"fn define_trait_impl_missing({setv}: &HashSet<String>, implemented_methods: &HashSet<String>, diagnostics: &mut Diagnostics, "
                "trait_name_str: String, for_ty: Ty)")
         order = f"canonical({setv}@)"
         rw = (m.group(0), LOOP.format(src=f"{setv}.iter_order()", x=x), 1)
+        if shape == "C":
+            # `A.difference(&B)` walks A in A's iteration order and skips the members of B
+            rw = (m.group(0), LOOP.format(src=f"{setv}.iter_order()", x=x) + f" if implemented_methods.contains({x}) {{ continue; }}", 1)
     else:
         sig = ("fn define_trait_impl_missing(trait_def: TraitDef, implemented_methods: &HashSet<String>, diagnostics: &mut Diagnostics, "
                "trait_name_str: String, for_ty: Ty)")
